@@ -125,4 +125,5 @@ func TestVerifReplayC18(t *testing.T) {
 			return
 		}
 	}
+	fmt.Println("REPLAY-OK all histories agree with the full recomputation")
 }
